@@ -119,7 +119,9 @@ def inventory(facts):
                 if it:
                     items.append(it)
         if items:
-            inv[key] = {"items": sorted(items), "pat": fn["pat"], "qname": fn["qname"]}
+            called = set()
+            walk(fn["body"], lambda n: called.add(n.get("cname")) if n.get("k") == "Call" and n.get("cname") else None)
+            inv[key] = {"items": sorted(items), "pat": fn["pat"], "qname": fn["qname"], "calls": called}
     return inv
 
 
@@ -137,6 +139,8 @@ def obligations(facts):
             if item in got:
                 got.remove(item)
                 out.append(ob("validators", k, cur[key]["pat"], "discharged", item, cur[key]["qname"]))
+            elif item.startswith("call:") and item.split(":", 1)[1] in cur[key].get("calls", ()):
+                out.append(ob("validators", k, cur[key]["pat"], "discharged", "%s is still called (it is now a plain list of guards, which are part of this inventory)" % item, cur[key]["qname"]))
             else:
                 what = item.split(":", 1)[1]
                 # same comparison shape with renamed operands = refactoring, not a dropped validation
